@@ -488,10 +488,10 @@ func checkTramp(tr Tramp, c *vcommon.Ctx) *vcommon.Failure {
 
 func TestCheck(t *testing.T) {
 	vcommon.Main(t, "C02",
-		vcommon.S("programs", 40000, 1000000, gen.GenProgram(4, 60, 6), checkProgram),
-		vcommon.S("loops", 10000, 400000, genLoop(false), checkLoop),
-		vcommon.S("blocked", 4000, 120000, genLoop(true), checkLoop),
-		vcommon.S("trampoline", 3000, 80000, genTramp(), checkTramp),
-		vcommon.S("handler-depth", 2000, 50000, genHLoop(), checkHLoop),
+		vcommon.S("programs", 40000, 600000, gen.GenProgram(4, 60, 6), checkProgram),
+		vcommon.S("loops", 10000, 200000, genLoop(false), checkLoop),
+		vcommon.S("blocked", 4000, 60000, genLoop(true), checkLoop),
+		vcommon.S("trampoline", 3000, 45000, genTramp(), checkTramp),
+		vcommon.S("handler-depth", 2000, 30000, genHLoop(), checkHLoop),
 	)
 }
